@@ -41,6 +41,30 @@ S = {
  "C19-2": ("C19", "eligibility tests FullSize instead of LiveSize", "large segments that lost most of their documents"),
  "C20-1": ("C20", "fragment centring measures free room in bytes but moves by runes", "multi-byte text longer than the fragment size with room on both sides of the match"),
  "C20-2": ("C20", "MergeOverlapping moved above fragmenting: nil entries reach the fragmenter", "the first term location overlaps a later one"),
+ "C01-3": ("C01", "introducePersist drops the deleted bitmap of the segment it swaps in", "a delete or update hitting a segment between its introduction and the persister's swap (unsafe mode or concurrent callers)"),
+ "C01-4": ("C01", "introduceSegment ORs into the previous root's bitmap in place (missing copy), so a running merge's plan-time view aliases the current one", "a segment with a deletion at merge-plan time and another delete during the merge"),
+ "C02-3": ("C02", "persistSnapshotDirect commits to the deletion policy before the snapshot is written", "a transient snapshot write failure, the persister's own retry, then a clean-up"),
+ "C02-4": ("C02", "persisterLoop no longer reports ErrClosed to waiting batches: a safe Batch returns nil on shutdown without a snapshot", "Writer.Close from another goroutine while the persister is between the segment write and the hand-over"),
+ "C03-3": ("C03", "persistSnapshotMaybeMerge persists the merged segment with the deletions later batches added (delete half of a later batch without its inserts)", "two unpersisted segments (in-memory merge) and an update of one of their documents during the merge, crash before the next snapshot"),
+ "C03-4": ("C03", "loadSnapshots returns the newest snapshot's load error although an older one was loaded", "a torn newest snapshot next to an intact older one, opened with OpenWriter"),
+ "C04-3": ("C04", "mergerLoop releases its snapshot twice on the ErrClosed path", "Writer.Close while a file merge is pending and a Reader of that epoch still open"),
+ "C04-4": ("C04", "ProcessSegmentNow computes 'deleted since' in place on the current root's bitmap", "a merge over a segment that had a deletion at plan time while a Reader of the current root is open"),
+ "C05-3": ("C05", "introduceSegment recomputes obsoletes only for in-memory segments the optimistic pass did not see", "two conflicting batches where the first one's segment is persisted before the second is introduced"),
+ "C05-4": ("C05", "ProcessSegmentNow: AndNot operands swapped", "a merge over a segment with a plan-time deletion and another delete during the merge"),
+ "C06-3": ("C06", "introduceMerge maps every plan-time doc number of an obsoleted segment, including the dropped-doc sentinel", "a merged source segment with a plan-time deletion that is fully obsoleted before the merge is introduced"),
+ "C06-4": ("C06", "persistSnapshotMaybeMerge reuses the live segmentSnapshot (with later deletions) in the snapshot it persists", "an in-memory merge with an update of a merged document arriving during it"),
+ "C07-3": ("C07", "DisjunctionHeapSearcher.Advance truncates the matching list before re-pushing its searchers", "a heap disjunction (more than 10 clauses) advanced while clauses sit in the look-ahead"),
+ "C07-4": ("C07", "findPhrasePaths checks only the previous path element for a reused location", "a sloppy phrase with the same term at two non-adjacent positions and too few occurrences in the document"),
+ "C11-3": ("C11", "persistSnapshotDirect commits the snapshot to the deletion policy even when writing it failed", "retention >= 2 and a transient snapshot write failure"),
+ "C11-4": ("C11", "persisterLoop leaves through the ErrClosed branch without closing its snapshot", "Writer.Close while the persister is inside prepareIntroducePersist"),
+ "C12-3": ("C12", "segment version read with Peek tolerating io.EOF: Uint32 on a short slice", "a file truncated inside a segment's version field"),
+ "C12-4": ("C12", "loadSnapshots returns the newest snapshot's load error although an older one was loaded", "a damaged newest snapshot next to an intact older one, OpenWriter"),
+ "C13-3": ("C13", "Persist writes through a bufio.Writer that is flushed after the fsync", "any item with a buffered tail; visible only in the write/fsync order"),
+ "C13-4": ("C13", "Persist returns on an already closed closeCh right after opening, without removing the file", "cancellation arriving before Persist is entered"),
+ "C14-3": ("C14", "Persist's clean-up moved into a defer that reads a shadowed err: a failed WriteTo leaves the partial file", "a write failure inside the item's WriteTo"),
+ "C14-4": ("C14", "persisterLoop closes its snapshot twice on the ordinary error path", "a persist failure while the root holds a persisted segment, then any use of that segment"),
+ "C19-3": ("C19", "plan() removes the fully deleted segments from the wrong slice, so they stay eligible", "a segment with live size 0 while the planner is over budget"),
+ "C19-4": ("C19", "CalcBudget truncates TierGrowth before multiplying", "a non-integral TierGrowth (below 2: tiers never grow)"),
 }
 for name, (prop, what, needs) in sorted(S.items()):
     d = os.path.join(ROOT, 'seeded', name)
